@@ -66,9 +66,22 @@ XUNIT = 0.1
 CUTOFF = 4
 CODES = {"RegRefError": 1, "ValueError": 2, "IndexError": 3, "RuntimeError": 4}
 BACKENDS = ("gaussian", "fock", "bosonic")
-LIVE_CAP = {"gaussian": 9, "fock": 4, "bosonic": 6}
+LIVE_CAP = {"gaussian": 12, "fock": 4, "bosonic": 11}
+SQ_R = math.log(2.0) / 2      # one squeeze level: var(x) halves
+SQ_MAX = 2
+SDS_R = 0.3
 DMAX = {"gaussian": 9, "fock": 4, "bosonic": 9}
-MEAS_KINDS = {"gaussian": ["homodyne", "heterodyne"], "fock": ["fock", "fock", "homodyne"], "bosonic": ["homodyne"]}
+MEAS_KINDS = {"gaussian": ["homodyne", "heterodyne", "homodyne-select", "heterodyne-select"],
+              "fock": ["fock", "fock", "homodyne", "homodyne-select"],
+              "bosonic": ["homodyne", "homodyne-select", "heterodyne", "heterodyne-select"]}
+DISP_RECIPES = {"gaussian": ["D", "D", "X", "RDR", "SDS", "loss", "prep", "vac"],
+                "fock": ["D", "D", "D", "X", "RDR", "SDS", "loss", "prep", "vac"],
+                "bosonic": ["D", "D", "X", "RDR", "SDS", "loss", "prep", "vac"]}
+
+
+def rx(op):
+    """Optional trailing dict of an operation: HOW the harness realises it (recipe), never WHAT it means."""
+    return op[-1] if isinstance(op[-1], dict) else {}
 
 
 # ----------------------------------------------------------------------------------------------
@@ -100,6 +113,8 @@ def spec_step(s, op):
         t = list(s)
         t[op[1]] += op[2]
         return t
+    if k == "Sq":          # squeezing: the integer data (mean) is untouched; modelled in Coq as Disp i 0
+        return list(s) if live(op[1]) else None
     if k == "Swap":
         i, j = op[1], op[2]
         if not sel_ok([i, j]):
@@ -118,21 +133,74 @@ def spec_step(s, op):
         if op[1] is None:
             return list(s)
         return list(s) if (len(s) == op[1] and all(x is not None for x in s)) else None
+    if k == "Reset":       # engine.reset() / backend.reset(): a new computation with op[1] vacuum modes
+        return [0] * op[1]
     raise ValueError(op)
 
 
+def sq_step(q, s_before, op, accepted):
+    """Second observable channel kept by the harness only: the squeeze level of every mode (var(x) = 2**-level)."""
+    k = op[0]
+    if not accepted:
+        return q
+    q = list(q)
+    if k == "New":
+        q += [0] * op[1]
+    elif k == "Sq":
+        q[op[1]] += 1
+    elif k == "Disp" and rx(op).get("r") in ("prep", "vac", "loss"):
+        q[op[1]] = 0
+    elif k == "Swap":
+        q[op[1]], q[op[2]] = q[op[2]], q[op[1]]
+    elif k == "Meas":
+        for i in op[1]:
+            q[i] = 0
+    elif k == "Reset":
+        q = [0] * op[1]
+    return q
+
+
 def spec_trace(n, hist):
+    """One expected observation per operation: [code, register, get_modes, [[index, data, squeeze level], ...]].
+    After a Reset the backend is observed BEFORE the next program starts: it shows the modes of the first program of the
+    computation that was reset, all vacuum."""
     s = [0] * n
+    q = [0] * n
+    n_chunk = n
     out = []
     for op in hist:
         t = spec_step(s, op)
+        q = sq_step(q, s, op, t is not None)
         if t is None:
             code = 9
         else:
             code, s = 0, t
         lives = [i for i, x in enumerate(s) if x is not None]
-        out.append([code, lives, lives, [[i, s[i]] for i in lives]])
+        if op[0] == "Reset":
+            shown = list(range(n_chunk))
+            out.append([0, lives, shown, [[i, 0, 0] for i in shown]])
+            n_chunk = op[1]
+            continue
+        st = [[i, s[i], q[i]] for i in lives]
+        sel = rx(op).get("modes") if op[0] == "Seg" else None
+        if sel is not None and code == 0:
+            st = [st[p] for p in sel]
+        out.append([code, lives, lives, st])
     return out
+
+
+def fix_aux(case):
+    """Recipes that overwrite a mode need to know its current data: recompute it from the specification (after
+    generation and after every shrinking step)."""
+    s = [0] * case["n"]
+    for op in case["ops"]:
+        if op[0] in ("Disp", "Sq") and isinstance(op[-1], dict):
+            i = op[1]
+            op[-1]["aux"] = s[i] if 0 <= i < len(s) and s[i] is not None else 0
+        t = spec_step(s, op)
+        if t is not None:
+            s = t
+    return case
 
 
 # ----------------------------------------------------------------------------------------------
@@ -148,7 +216,17 @@ def _decode(x):
     return int(r) if abs(u - r) < 0.2 else round(u, 3)
 
 
+def _decode_sq(var):
+    try:
+        u = -math.log2(float(np.real(var)))      # hbar = 2: vacuum variance 1
+    except (ValueError, OverflowError):
+        return "var:%r" % (var,)
+    r = round(u)
+    return int(r) if abs(u - r) < 0.3 else round(u, 3)
+
+
 def _observe_state(st):
+    """[[label index, data, squeeze level], ...] in the order of the state object."""
     try:
         n = st.num_modes
         names = st.mode_names
@@ -156,7 +234,8 @@ def _observe_state(st):
         for j in range(n):
             nm = names[j]
             idx = int(nm[2:-1]) if isinstance(nm, str) and nm.startswith("q[") else nm
-            out.append([idx, _decode(st.quad_expectation(j, 0.0)[0])])
+            mean, var = st.quad_expectation(j, 0.0)
+            out.append([idx, _decode(mean), _decode_sq(var)])
         return out
     except Exception as e:  # a state object that cannot be interrogated is an observation too
         return "state-error:" + type(e).__name__
@@ -169,20 +248,74 @@ def _disp_args(k):
 def _opts(backend, case=None):
     if backend != "fock":
         return {}
-    o = {"cutoff_dim": CUTOFF}
+    o = {"cutoff_dim": (case or {}).get("cutoff", CUTOFF)}
     if case is not None and case.get("pure") is False:
         o["pure"] = False
     return o
 
 
+def _apply_disp_engine(m, k, r):
+    """Append the commands realising `data += k` on mode reference m (inside a Program context)."""
+    rec, aux = r.get("r", "D"), r.get("aux", 0)
+    if rec == "X":
+        ops.Xgate(k * XUNIT) | m
+    elif rec == "RDR":
+        ops.Rgate(math.pi) | m
+        ops.Dgate(*_disp_args(-k)) | m
+        ops.Rgate(-math.pi) | m
+    elif rec == "SDS":
+        ops.Sgate(SDS_R) | m
+        ops.Dgate(*_disp_args(k * math.exp(-SDS_R))) | m
+        ops.Sgate(-SDS_R) | m
+    elif rec == "loss":
+        ops.LossChannel(0.25) | m
+        ops.Dgate(*_disp_args(aux / 2 + k)) | m
+    elif rec == "prep":
+        ops.Coherent(*_disp_args(aux + k)) | m
+    elif rec == "vac":
+        ops.Vacuum() | m
+        ops.Dgate(*_disp_args(aux + k)) | m
+    else:
+        ops.Dgate(*_disp_args(k)) | m
+
+
+def _apply_disp_api(be, i, k, r):
+    rec, aux = r.get("r", "D"), r.get("aux", 0)
+    if rec == "RDR":
+        be.rotation(math.pi, i)
+        be.displacement(*_disp_args(-k), i)
+        be.rotation(-math.pi, i)
+    elif rec == "SDS":
+        be.squeeze(SDS_R, 0.0, i)
+        be.displacement(*_disp_args(k * math.exp(-SDS_R)), i)
+        be.squeeze(-SDS_R, 0.0, i)
+    elif rec == "loss":
+        be.loss(0.25, i)
+        be.displacement(*_disp_args(aux / 2 + k), i)
+    elif rec == "prep":
+        be.prepare_coherent_state(*_disp_args(aux + k), i)
+    elif rec == "vac":
+        be.prepare_vacuum_state(i)
+        be.displacement(*_disp_args(aux + k), i)
+    else:
+        be.displacement(*_disp_args(k), i)
+
+
+SELECT_HOM = 0.05
+SELECT_HET = 0.05 + 0.05j
+
+
 def run_engine(case):
     """Engine-level driver.  Returns one observation per operation:
-    [code, register, get_modes | None, state | None]  (backend observed at segment boundaries only)."""
+    [code, register, get_modes | None, state | None]  (backend observed at segment boundaries only).
+    case["batch"]: the programs of all segments are handed to ONE eng.run([p0, p1, ...]) call at the end."""
     backend, n, hist = case["backend"], case["n"], case["ops"]
     styles = case.get("styles") or []
+    batch = bool(case.get("batch"))
     eng = sf.Engine(backend, backend_options=_opts(backend, case))
     prog = sf.Program(n)
     last_run = None
+    pending = []
     out = []
 
     def ref(i, style):
@@ -198,17 +331,27 @@ def run_engine(case):
     for pos, op in enumerate(hist):
         style = styles[pos] if pos < len(styles) else "int"
         k = op[0]
+        r = rx(op)
         code = 0
         if k == "Seg":
             if op[1] is None:
+                reg_now = [x.ind for x in prog.register]
+                kw = {}
+                if r.get("modes") is not None:
+                    kw["modes"] = [p if backend == "fock" else reg_now[p] for p in r["modes"]]
+                if batch and pos != len(hist) - 1:
+                    pending.append(prog)
+                    out.append([0, reg_now, None, None])
+                    prog = sf.Program(prog)
+                    continue
                 try:
-                    res = eng.run(prog)
+                    res = eng.run(pending + [prog], **kw) if batch else eng.run(prog, **kw)
                 except Exception as e:
-                    out.append([_kind(e), [r.ind for r in prog.register], None, None, "run:%s: %s" % (type(e).__name__, str(e)[:120])])
+                    out.append([_kind(e), reg_now, None, None, "run:%s: %s" % (type(e).__name__, str(e)[:120])])
                     break
                 last_run = prog
                 gm, st = observe(res)
-                out.append([0, [r.ind for r in prog.register], gm, st])
+                out.append([0, reg_now, gm, st])
                 prog = sf.Program(last_run)
             else:
                 cur = prog if last_run is None else last_run
@@ -218,36 +361,63 @@ def run_engine(case):
                     last_run = fresh
                     prog = sf.Program(fresh)
                     gm, st = observe(res)
-                    out.append([0, [r.ind for r in prog.register], gm, st])
+                    out.append([0, [x.ind for x in prog.register], gm, st])
                 except Exception as e:
                     gm = [int(x) for x in eng.backend.get_modes()] if eng.backend.circuit is not None else None
-                    out.append([_kind(e), [r.ind for r in cur.register], gm, None])
+                    out.append([_kind(e), [x.ind for x in cur.register], gm, None])
+            continue
+        if k == "Reset":
+            try:
+                eng.reset()
+                gm = [int(x) for x in eng.backend.get_modes()]
+                st = _observe_state(eng.backend.state())
+                prog = sf.Program(op[1])
+                last_run = None
+                out.append([0, [x.ind for x in prog.register], gm, st])
+            except Exception as e:
+                out.append([_kind(e), [], None, None, "reset:%s: %s" % (type(e).__name__, str(e)[:120])])
+                break
             continue
         try:
             with prog.context:
                 if k == "New":
-                    ops.New(op[1])
+                    if op[1] == 1 and r.get("default"):
+                        ops.New()
+                    else:
+                        ops.New(op[1])
                 elif k == "Del":
                     sel = [ref(i, style) for i in op[1]]
                     ops.Del | (sel[0] if (len(sel) == 1 and style == "ref") else tuple(sel))
                 elif k == "Disp":
-                    ops.Dgate(*_disp_args(op[2])) | ref(op[1], style)
+                    _apply_disp_engine(ref(op[1], style), op[2], r)
+                elif k == "Sq":
+                    m = ref(op[1], style)
+                    ops.Sgate(SQ_R) | m
+                    ops.Dgate(*_disp_args(r.get("aux", 0) * (1 - math.exp(-SQ_R)))) | m
                 elif k == "Swap":
-                    ops.BSgate(math.pi / 2, 0.0) | (ref(op[1], style), ref(op[2], style))
+                    if r.get("r") == "BSpi":
+                        ops.BSgate(math.pi / 2, math.pi) | (ref(op[2], style), ref(op[1], style))
+                    else:
+                        ops.BSgate(math.pi / 2, 0.0) | (ref(op[1], style), ref(op[2], style))
                 elif k == "Meas":
                     sel = tuple(ref(i, style) for i in op[1])
+                    one = sel[0] if len(sel) == 1 else sel
                     kind = op[2]
                     if kind == "fock":
                         ops.MeasureFock() | sel
                     elif kind == "heterodyne":
-                        ops.MeasureHD | (sel[0] if len(sel) == 1 else sel)
+                        ops.MeasureHD | one
+                    elif kind == "heterodyne-select":
+                        ops.MeasureHeterodyne(select=SELECT_HET) | one
+                    elif kind == "homodyne-select":
+                        ops.MeasureHomodyne(0.0, select=SELECT_HOM) | one
                     else:
-                        ops.MeasureX | (sel[0] if len(sel) == 1 else sel)
+                        ops.MeasureX | one
                 else:
                     raise AssertionError(op)
         except Exception as e:
             code = _kind(e)
-        out.append([code, [r.ind for r in prog.register], None, None])
+        out.append([code, [x.ind for x in prog.register], None, None])
     return out
 
 
@@ -259,26 +429,41 @@ def run_api(case):
     out = []
     for op in hist:
         k = op[0]
+        r = rx(op)
         code = 0
         try:
             if k == "New":
-                be.add_mode(op[1])
+                be.add_mode(op[1]) if not (op[1] == 1 and r.get("default")) else be.add_mode()
             elif k == "Del":
                 be.del_mode(op[1][0] if (len(op[1]) == 1 and case.get("int_single")) else list(op[1]))
             elif k == "Disp":
-                r, phi = _disp_args(op[2])
-                be.displacement(r, phi, op[1])
+                _apply_disp_api(be, op[1], op[2], r)
+            elif k == "Sq":
+                be.squeeze(SQ_R, 0.0, op[1])
+                be.displacement(*_disp_args(r.get("aux", 0) * (1 - math.exp(-SQ_R))), op[1])
             elif k == "Swap":
-                be.beamsplitter(math.pi / 2, 0.0, op[1], op[2])
+                if r.get("r") == "BSpi":
+                    be.beamsplitter(math.pi / 2, math.pi, op[2], op[1])
+                else:
+                    be.beamsplitter(math.pi / 2, 0.0, op[1], op[2])
             elif k == "Meas":
-                if op[2] == "fock":
+                kind = op[2]
+                if kind == "fock":
                     be.measure_fock(list(op[1]))
-                elif op[2] == "heterodyne":
+                elif kind == "heterodyne":
                     for i in op[1]:
                         be.measure_heterodyne(i)
+                elif kind == "heterodyne-select":
+                    for i in op[1]:
+                        be.measure_heterodyne(i, select=SELECT_HET)
+                elif kind == "homodyne-select":
+                    for i in op[1]:
+                        be.measure_homodyne(0.0, i, select=SELECT_HOM)
                 else:
                     for i in op[1]:
                         be.measure_homodyne(0.0, i)
+            elif k == "Reset":
+                be.reset(**_opts(backend, case))
             else:
                 raise AssertionError(op)
         except Exception as e:
@@ -303,14 +488,29 @@ def run_impl(case):
 # ----------------------------------------------------------------------------------------------
 # Generators
 
-def gen_history(rng, backend, level, max_ops=None, malformed=0.15, churn=None, bad_first=False):
-    n = rng.choice([1, 2, 2, 3, 3, 4]) if backend != "fock" else rng.choice([1, 2, 2, 3, 3])
+def gen_history(rng, backend, level, max_ops=None, malformed=0.15, churn=None, bad_first=False, wide=False, plain=False):
+    """Structured random history.  wide: start with 9-10 modes (>= 10 live modes are reached); for the Fock backend this
+    uses cutoff 2 and |data| <= 2.  plain: no recipes / extra op kinds (the pre-hardening stream, kept for the differential
+    family where one history must run on all three backends)."""
+    cap, dmax = LIVE_CAP[backend], DMAX[backend]
+    if wide:
+        n = rng.choice([9, 10, 10, 11]) if backend != "fock" else rng.choice([9, 10])
+        cap = max(cap, 12) if backend != "fock" else 11
+        dmax = dmax if backend != "fock" else 2
+    else:
+        n = rng.choice([1, 2, 2, 3, 3, 4]) if backend != "fock" else rng.choice([1, 2, 2, 3, 3])
     max_ops = max_ops or rng.choice([3, 5, 8, 12, 16])
     churn = rng.random() < 0.25 if churn is None else churn
     s = [0] * n
+    q = [0] * n
     hist, styles = [], []
-    cap, dmax = LIVE_CAP[backend], DMAX[backend]
-    kinds = MEAS_KINDS[backend]
+    kinds = MEAS_KINDS[backend] if not plain else [k for k in MEAS_KINDS[backend] if "select" not in k]
+    recipes = DISP_RECIPES[backend]
+    if wide and backend == "fock":
+        recipes = ["D", "D", "X", "RDR", "prep", "vac"]
+        kinds = ["fock"]
+    can_sq = backend != "fock" and not plain
+    n_chunk = [n]
 
     def lives():
         return [i for i, x in enumerate(s) if x is not None]
@@ -318,32 +518,53 @@ def gen_history(rng, backend, level, max_ops=None, malformed=0.15, churn=None, b
     def deads():
         return [i for i, x in enumerate(s) if x is None]
 
-    if rng.random() < 0.12:
+    def push(op, style=None):
+        nonlocal s, q
+        t = spec_step(s, op)
+        q = sq_step(q, s, op, t is not None)
+        if t is not None:
+            s = t
+        hist.append(op)
+        styles.append(style or rng.choice(["int", "ref", "ref"]))
+
+    def boundary():
+        if not hist or hist[-1][0] != "Seg":
+            push(["Seg", None], "int")
+
+    if rng.random() < 0.12 and not wide:
         # drive the indices high (>= 9) while keeping few modes alive: delete all but one, create up to the cap
         for _ in range(rng.choice([3, 4, 5])):
             lv = lives()
             if len(lv) > 1:
                 sel = lv[:-1] if rng.random() < 0.5 else list(reversed(lv[1:]))
-                hist.append(["Del", sel]); styles.append(rng.choice(["int", "ref"]))
-                s = spec_step(s, hist[-1])
+                push(["Del", sel], rng.choice(["int", "ref"]))
             m = max(1, min(3, cap - len(lives())))
-            hist.append(["New", m]); styles.append("int")
-            s = spec_step(s, hist[-1])
+            push(["New", m], "int")
             i = lives()[-1]
-            hist.append(["Disp", i, rng.choice([1, 2, -1])]); styles.append(rng.choice(["int", "ref"]))
-            s = spec_step(s, hist[-1])
+            push(["Disp", i, rng.choice([1, 2, -1])], rng.choice(["int", "ref"]))
         max_ops += len(hist)
     while len(hist) < max_ops:
         lv = lives()
         bad = rng.random() < malformed
         choices = ["New", "Del", "Disp", "Disp", "Swap", "Meas"]
+        if can_sq:
+            choices += ["Sq"]
         if level == "engine":
             choices += ["Seg", "Seg"]
         if churn:
             choices += ["New", "Del", "Del"]
+        if not plain and rng.random() < 0.04:
+            choices = ["Reset"]
         k = rng.choice(choices)
         op = None
-        if bad:
+        if k == "Reset":
+            if level == "engine":
+                boundary()
+                kk = rng.choice([1, 2, 3]) if not wide else n
+                op = ["Reset", kk]
+            else:
+                op = ["Reset", n]
+        elif bad:
             pool = deads() + [len(s), len(s) + 1, len(s) + rng.randrange(2, 5)]
             b = rng.choice(pool)
             if k == "New" and level == "engine":
@@ -358,6 +579,10 @@ def gen_history(rng, backend, level, max_ops=None, malformed=0.15, churn=None, b
                     op = ["Del", sel]
             elif k == "Disp":
                 op = ["Disp", b, rng.choice([1, -1, 2])]
+                if not plain:
+                    op.append({"r": rng.choice(recipes)})
+            elif k == "Sq":
+                op = ["Sq", b, {}]
             elif k == "Swap":
                 if level == "engine" and lv and rng.random() < 0.3:
                     op = ["Swap", lv[0], lv[0]]
@@ -373,15 +598,16 @@ def gen_history(rng, backend, level, max_ops=None, malformed=0.15, churn=None, b
                 want = len(s) + rng.choice([-1, 1, 0]) if deads() or rng.random() < 0.7 else len(s) + 1
                 if want < 1:
                     want = len(s) + 1
-                if not hist or hist[-1][0] != "Seg":
-                    hist.append(["Seg", None]); styles.append("int")
+                boundary()
                 op = ["Seg", want]
         else:
             if k == "New":
                 m = rng.choice([1, 1, 1, 2, 2, 3])
-                if len(lv) + m > cap or len(s) + m > 16:
+                if len(lv) + m > cap or len(s) + m > (16 if not wide else 22):
                     continue
                 op = ["New", m]
+                if m == 1 and not plain and rng.random() < 0.4:
+                    op.append({"default": True})
             elif k == "Del":
                 if not lv:
                     continue
@@ -396,11 +622,23 @@ def gen_history(rng, backend, level, max_ops=None, malformed=0.15, churn=None, b
                 if abs(s[i] + kk) > dmax:
                     kk = -1 if s[i] > 0 else 1
                 op = ["Disp", i, kk]
+                if not plain:
+                    rec = rng.choice(recipes)
+                    if rec == "loss" and q[i] != 0:
+                        rec = "D"        # loss on a squeezed mode leaves a variance that is no power of two
+                    op.append({"r": rec})
+            elif k == "Sq":
+                cand = [i for i in lv if q[i] < SQ_MAX]
+                if not cand:
+                    continue
+                op = ["Sq", rng.choice(cand), {}]
             elif k == "Swap":
                 if len(lv) < 2:
                     continue
                 i, j = rng.sample(lv, 2)
                 op = ["Swap", i, j]
+                if not plain and rng.random() < 0.35:
+                    op.append({"r": "BSpi"})
             elif k == "Meas":
                 if not lv:
                     continue
@@ -409,28 +647,32 @@ def gen_history(rng, backend, level, max_ops=None, malformed=0.15, churn=None, b
                 op = ["Meas", rng.sample(lv, min(m, len(lv))), kind]
             elif k == "Seg":
                 if rng.random() < 0.25 and not deads():
-                    if not hist or hist[-1][0] != "Seg":
-                        hist.append(["Seg", None]); styles.append("int")
+                    boundary()
                     op = ["Seg", len(s)]
                 else:
                     op = ["Seg", None]
+                    if len(lv) >= 2 and not plain and rng.random() < 0.3:
+                        # ask the engine for a proper, ascending subset of the modes (positions among the live ones)
+                        m = rng.randrange(1, len(lv))
+                        op.append({"modes": sorted(rng.sample(range(len(lv)), m))})
         if op is None:
             continue
-        t = spec_step(s, op)
-        if t is not None:
-            s = t
-        hist.append(op)
-        styles.append(rng.choice(["int", "ref", "ref"]))
+        push(op)
     if level == "engine" and (not hist or hist[-1][0] != "Seg" or hist[-1][1] is not None):
-        hist.append(["Seg", None]); styles.append("int")
+        push(["Seg", None], "int")
     case = {"backend": backend, "level": level, "n": n, "ops": hist, "npseed": rng.randrange(1 << 30)}
     if level == "engine":
         case["styles"] = styles
+        if not plain and rng.random() < 0.2 and not any(o[0] == "Reset" or (o[0] == "Seg" and o[1] is not None) for o in hist):
+            case["batch"] = True
     else:
         case["int_single"] = rng.random() < 0.5
-    if backend == "fock" and rng.random() < 0.3:
-        case["pure"] = False
-    return case
+    if backend == "fock":
+        if wide:
+            case["cutoff"] = 2
+        elif rng.random() < 0.3:
+            case["pure"] = False
+    return fix_aux(case)
 
 
 def max_live(n, hist):
@@ -453,7 +695,7 @@ def note_stats(ctx, case):
     st = ctx.extra.setdefault("input_features", {"index>=9": 0, "descending-list": 0, "segments>=2": 0, "segments>=3": 0,
                                                   "rejected-op": 0, "fresh-program-segment": 0, "new>=2": 0, "delete-then-new": 0})
     ops_ = case["ops"]
-    idx = [i for o in ops_ if o[0] in ("Del", "Meas") for i in o[1]] + [o[1] for o in ops_ if o[0] in ("Disp", "Swap")] + [o[2] for o in ops_ if o[0] == "Swap"]
+    idx = [i for o in ops_ if o[0] in ("Del", "Meas") for i in o[1]] + [o[1] for o in ops_ if o[0] in ("Disp", "Swap", "Sq")] + [o[2] for o in ops_ if o[0] == "Swap"]
     if any(i >= 9 for i in idx):
         st["index>=9"] += 1
     if any(o[0] in ("Del", "Meas") and len(o[1]) > 1 and list(o[1]) != sorted(o[1]) for o in ops_) or any(o[0] == "Swap" and o[1] > o[2] for o in ops_):
@@ -479,6 +721,14 @@ def note_stats(ctx, case):
                 dn = True
     st["rejected-op"] += rej
     st["delete-then-new"] += dn
+    for key, hit in (("live>=10", max_live(case["n"], ops_) >= 10), ("batch-run-list", bool(case.get("batch"))),
+                     ("reset", any(o[0] == "Reset" for o in ops_)), ("state-modes-subset", any(o[0] == "Seg" and rx(o).get("modes") for o in ops_)),
+                     ("squeezed-mode", any(o[0] == "Sq" for o in ops_)), ("select-measurement", any(o[0] == "Meas" and "select" in str(o[2]) for o in ops_)),
+                     ("new-default-arg", any(o[0] == "New" and rx(o).get("default") for o in ops_))):
+        st[key] = st.get(key, 0) + bool(hit)
+    for o in ops_:
+        if o[0] in ("Disp", "Swap") and rx(o).get("r"):
+            st["recipe:" + rx(o)["r"]] = st.get("recipe:" + rx(o)["r"], 0) + 1
 
 
 def bucket(case):
@@ -497,6 +747,8 @@ def enc_op(op):
         return "Del %s" % nl(op[1])
     if k == "Disp":
         return "Disp %d %s" % (op[1], coq.coq_Z(op[2]))
+    if k == "Sq":
+        return "Disp %d %s" % (op[1], coq.coq_Z(0))
     if k == "Swap":
         return "Swap %d %d" % (op[1], op[2])
     if k == "Meas":
@@ -510,15 +762,33 @@ RUNNER = {("engine", "fock"): "run_fock", ("engine", "gaussian"): "run_gauss", (
           ("api", "fock"): "brun_fock", ("api", "gaussian"): "brun_gauss", ("api", "bosonic"): "brun_bos"}
 
 
+def chunks(case):
+    """Split a history at Reset operations: [(n, [ops...]), ...]; every chunk is an independent computation."""
+    out = []
+    n, cur = case["n"], []
+    for o in case["ops"]:
+        if o[0] == "Reset":
+            out.append((n, cur))
+            n, cur = o[1], []
+        else:
+            cur.append(o)
+    out.append((n, cur))
+    return out
+
+
 def model_eval(ctx, name, cases, with_spec=True):
-    """Return (model_traces, spec_traces) for the cases, or None when coqc failed."""
+    """Return (model_traces, spec_traces) for the cases, or None when coqc failed.  Histories with Reset are evaluated
+    chunk by chunk (the Coq model has no Reset: a reset computation is a new history) and stitched together again with
+    a None placeholder at every Reset."""
     lines = ["From Coq Require Import List ZArith Bool.", "Import ListNotations.", "From SFV Require Import C08.Model.",
              "Open Scope nat_scope.", "Definition H := list op."]
-    items, sitems = [], []
-    for c in cases:
-        h = "(%s : H)" % coq.coq_list([enc_op(o) for o in c["ops"]], lambda s: "(%s)" % s)
-        items.append("%s %d %s" % (RUNNER[(c["level"], c["backend"])], c["n"], h))
-        sitems.append("run_spec %d %s" % (c["n"], h))
+    items, sitems, owner = [], [], []
+    for ci, c in enumerate(cases):
+        for n, ops_ in chunks(c):
+            h = "(%s : H)" % coq.coq_list([enc_op(o) for o in ops_], lambda s: "(%s)" % s)
+            items.append("%s %d %s" % (RUNNER[(c["level"], c["backend"])], n, h))
+            sitems.append("run_spec %d %s" % (n, h))
+            owner.append(ci)
     lines.append("Eval vm_compute in [%s]." % ";\n ".join(items))
     if with_spec:
         lines.append("Eval vm_compute in [%s]." % ";\n ".join(sitems))
@@ -527,7 +797,17 @@ def model_eval(ctx, name, cases, with_spec=True):
         ctx.obligation("correspondence:%s:coqc" % name, False, raw)
         return None
     conv = lambda tr: [[o[0], list(o[1]), list(o[2]), [[a, b] for a, b in o[3]]] for o in tr]
-    return [conv(t) for t in vals[0]], ([conv(t) for t in vals[1]] if with_spec else None)
+
+    def stitch(vs):
+        res = [[] for _ in cases]
+        first = [True] * len(cases)
+        for ci, tr in zip(owner, vs):
+            if not first[ci]:
+                res[ci].append(None)
+            first[ci] = False
+            res[ci].extend(conv(tr))
+        return res
+    return stitch(vals[0]), (stitch(vals[1]) if with_spec else None)
 
 
 # ----------------------------------------------------------------------------------------------
@@ -561,7 +841,7 @@ def predicate_failures(case, impl, spec):
             fails.append((classify_modes(case, pos, io, so), "after op #%d %s backend.get_modes() is %s, live indices are %s" % (pos, op, io[2], so[2])))
             break
         if io[3] is not None and io[3] != so[3]:
-            fails.append((classify_state(case, pos, io, so), "after op #%d %s state (label, data) is %s, expected %s" % (pos, op, io[3], so[3])))
+            fails.append((classify_state(case, pos, io, so), "after op #%d %s state (label, data, squeeze level) is %s, expected %s" % (pos, op, io[3], so[3])))
             break
     if len(impl) < len(hist) and not fails:
         fails.append(("%s:%s:trace-short" % (be, level), "driver stopped early"))
@@ -609,7 +889,9 @@ def bosonic_reinit(case, pos):
     cur = []
     for p in range(0, j + 1):
         o = case["ops"][p]
-        if o[0] == "Seg":
+        if o[0] == "Reset":
+            earlier_nonempty, cur = False, []
+        elif o[0] == "Seg":
             if cur:
                 earlier_nonempty = True
             cur = []
@@ -647,10 +929,11 @@ def classify_state(case, pos, io, so):
         lives = [i for i, x in enumerate(s) if x is not None]
         slots = [0 if x is None else x for x in s]
         pred = [[lab, slots[j]] for j, lab in enumerate(lives)]
-        if io[3] == pred and lives != list(range(len(lives))):
+        if [x[:2] for x in io[3]] == pred and lives != list(range(len(lives))) and not any(o[0] == "Reset" for o in case["ops"]):
             return "gaussian:state-after-del:slots-range-nlive"
     labels_ok = isinstance(io[3], list) and [x[0] for x in io[3]] == [x[0] for x in so[3]]
-    return "%s:%s:state-%s" % (be, level, "data" if labels_ok else "labels")
+    data_ok = labels_ok and [x[1] for x in io[3]] == [x[1] for x in so[3]]
+    return "%s:%s:state-%s" % (be, level, "variance" if data_ok else ("data" if labels_ok else "labels"))
 
 
 # ----------------------------------------------------------------------------------------------
@@ -669,8 +952,9 @@ def shrink(case, sig, still):
             del cand["ops"][i]
             if "styles" in cand and i < len(cand["styles"]):
                 del cand["styles"][i]
-            if cand["level"] == "engine" and (not cand["ops"] or cand["ops"][-1] != ["Seg", None]):
+            if cand["level"] == "engine" and (not cand["ops"] or cand["ops"][-1][0] != "Seg" or cand["ops"][-1][1] is not None):
                 continue
+            fix_aux(cand)
             budget -= 1
             try:
                 if sig in still(cand):
@@ -705,20 +989,42 @@ def canon_trace(tr):
 
 
 def compare_model(case, impl, model):
-    """Exact comparison of model and implementation observations (None = not observed)."""
+    """Exact comparison of model and implementation observations (None = not observed).  The Coq model carries
+    (label, data); the squeeze level is judged by the search predicate only.  A Reset is a history boundary for the model."""
     for pos, io in enumerate(impl):
         mo = model[pos]
+        if mo is None:
+            continue
         if io[0] != mo[0]:
             return pos, "result code impl %s vs model %s" % (io[0], mo[0])
         if case["level"] == "engine" and io[1] != mo[1]:
             return pos, "register impl %s vs model %s" % (io[1], mo[1])
         if io[2] is not None and io[2] != mo[2]:
             return pos, "get_modes impl %s vs model %s" % (io[2], mo[2])
-        if io[3] is not None and io[3] != mo[3]:
-            return pos, "state impl %s vs model %s" % (io[3], mo[3])
+        if io[3] is not None:
+            want = mo[3]
+            sel = rx(case["ops"][pos]).get("modes") if case["ops"][pos][0] == "Seg" else None
+            if sel is not None and mo[0] == 0:
+                want = [want[p] for p in sel if p < len(want)]
+            got = [x[:2] for x in io[3]] if isinstance(io[3], list) else io[3]
+            if got != want:
+                return pos, "state impl %s vs model %s" % (got, want)
     if len(impl) != len(model):
         return len(impl) - 1, "implementation trace stops after %d of %d operations" % (len(impl), len(model))
     return None
+
+
+def spec_plain(case):
+    """The Python specification projected to what the Coq specification computes (for the python-vs-Coq tie)."""
+    out = []
+    first = True
+    for n, ops_ in chunks(case):
+        if not first:
+            out.append(None)
+        first = False
+        bare = [[x for x in o if not isinstance(x, dict)] for o in ops_]
+        out.extend([[o[0], o[1], o[2], [x[:2] for x in o[3]]] for o in spec_trace(n, bare)])
+    return out
 
 
 def corpus_cases():
@@ -749,6 +1055,13 @@ def correspondence(ctx):
     for level, be, cnt in plan:
         for _ in range(cnt):
             cases.append(gen_single_segment(rng, be) if (level, be) == ("engine", "bosonic") else gen_history(rng, be, level))
+    # >= 10 live modes (Fock: cutoff 2)
+    for level, be, cnt in [("engine", "gaussian", ctx.budget(8, 80)), ("api", "gaussian", ctx.budget(4, 40)),
+                           ("api", "bosonic", ctx.budget(4, 40)), ("engine", "bosonic", ctx.budget(4, 40)),
+                           ("engine", "fock", ctx.budget(1, 10))]:
+        for _ in range(cnt):
+            cases.append(gen_single_segment(rng, be, wide=True) if (level, be) == ("engine", "bosonic")
+                         else gen_history(rng, be, level, wide=True, max_ops=rng.choice([6, 10, 14])))
     impls = [run_impl(c) for c in cases]
     shard = 400
     for si in range(0, len(cases), shard):
@@ -761,14 +1074,14 @@ def correspondence(ctx):
             ctx.case({"case": c}, nontrivial=nontrivial(c), bucket=bucket(c))
             note_stats(ctx, c)
             ctx.traces += 1
-            pyspec = spec_trace(c["n"], c["ops"])
+            pyspec = spec_plain(c)
             if pyspec != sp:
                 ctx.obligation("correspondence:python-spec-equals-coq-spec", False, "%s\npy %s\ncoq %s" % (c, pyspec, sp))
                 return
             d = compare_model(c, impl, mo)
             if d is not None:
                 pos, what = d
-                fails = predicate_failures(c, impl, sp)
+                fails = predicate_failures(c, impl, spec_trace(c["n"], c["ops"]))
                 if fails:
                     report(ctx, c, fails, seen)
                 else:
@@ -809,6 +1122,12 @@ def search(ctx):
                 cases.append(gen_single_segment(rng, "bosonic"))
             else:
                 cases.append(gen_history(rng, be, level, bad_first=(level == "api")))
+    for level, be, cnt in [("engine", "gaussian", ctx.budget(8, 80)), ("engine", "bosonic", ctx.budget(5, 50)),
+                           ("api", "gaussian", ctx.budget(3, 30)), ("api", "bosonic", ctx.budget(3, 30)),
+                           ("engine", "fock", ctx.budget(1, 10))]:
+        for _ in range(cnt):
+            cases.append(gen_single_segment(rng, be, wide=True) if (level, be) == ("engine", "bosonic")
+                         else gen_history(rng, be, level, wide=True, max_ops=rng.choice([6, 10, 14]), bad_first=(level == "api")))
     # the same history on all backends (differential)
     for _ in range(ctx.budget(40, 500)):
         base = gen_history(rng, "fock", "engine", malformed=0.1)
@@ -865,18 +1184,28 @@ def search(ctx):
         ctx.notes.append("exhaustively enumerated engine histories: " + "; ".join(done))
 
 
-def gen_single_segment(rng, backend):
-    """Engine history with all the commands in ONE program segment (the bosonic engine re-initialises its circuit
-    for every later non-empty segment — recorded finding — so this is where the property must hold outright)."""
+def gen_single_segment(rng, backend, wide=False):
+    """Engine history with all the commands of one computation in ONE program segment (the bosonic engine re-initialises
+    its circuit for every later non-empty segment — recorded finding — so this is where the property must hold outright).
+    Only the boundary in front of a Reset (the run that the reset then discards) and the final one are kept."""
     while True:
-        c = gen_history(rng, backend, "engine", malformed=0.15)
-        pairs = [(o, st) for o, st in zip(c["ops"], c["styles"]) if o[0] != "Seg"]
-        if not pairs:
+        c = gen_history(rng, backend, "engine", malformed=0.15, wide=wide, max_ops=(rng.choice([6, 10, 14]) if wide else None))
+        ops_, sts = c["ops"], c["styles"]
+        keep = []
+        for p, o in enumerate(ops_):
+            if o[0] == "Seg":
+                continue
+            if o[0] == "Reset" and (not keep or keep[-1][0][0] != "Seg"):
+                keep.append((["Seg", None], "int"))      # the run that the reset then discards
+            keep.append((o, sts[p]))
+        if not any(o[0] not in ("Seg", "Reset") for o, _ in keep):
             continue
-        c["ops"] = [o for o, _ in pairs] + [["Seg", None]]
-        c["styles"] = [st for _, st in pairs] + ["int"]
+        keep.append((["Seg", None], "int"))
+        c["ops"] = [o for o, _ in keep]
+        c["styles"] = [st for _, st in keep]
+        c.pop("batch", None)
         # the live cap is still respected: removing boundaries does not change which commands are valid
-        return c
+        return fix_aux(c)
 
 
 def replay(ctx, data):
